@@ -3,8 +3,12 @@
 R10.1 interval analysis of the escaper loop over all code points; R10.2 literal shape of the escape
 (\\ucN + N literal fallback characters); R10.3 taint: no user text reaches the document shape
 without passing the escaper; R10.4 files are written with an explicit encoding under which the
-pass-through range is invariant; R10.5 the escaper runs unconditionally (not gated by the
-conversion flag).
+pass-through range is invariant; R10.5 the escaper runs unconditionally (for either value of the
+conversion flag everything the entry point returns is escaper output).
+
+The escaper is recognised by role (a per-character iteration that takes ord() of the character, as a
+statement loop or a comprehension, directly or through helpers); helpers called from it are analysed in
+place by the interval analysis.  Constructs the analysis cannot bound are gaps, not violations.
 """
 from __future__ import annotations
 
@@ -224,30 +228,6 @@ def r10_5(ctx: Ctx, worlds: dict) -> None:
             ctx.gap("R10.5", f"convert={flag}: the output of the per-character escaper could not be followed to the value {entry.short} returns")
 
 
-def _call_chain(cg, src: str, dst: str):
-    if src == dst:
-        return []
-    from collections import deque
-    prev = {src: None}
-    dq = deque([src])
-    while dq:
-        x = dq.popleft()
-        for callnode, cands in cg.sites.get(x, []):
-            for c in cands:
-                if c.short not in prev:
-                    prev[c.short] = (x, callnode)
-                    dq.append(c.short)
-    if dst not in prev:
-        return None
-    out = []
-    cur = dst
-    while prev[cur] is not None:
-        x, callnode = prev[cur]
-        out.append((x, callnode))
-        cur = x
-    return list(reversed(out))
-
-
 def r10_1_2(ctx: Ctx, fi, loop: EscLoop, pass_ok) -> None:
     pm = ctx.pm
     where = fi.where(loop.node)
@@ -434,8 +414,11 @@ def check(ctx: Ctx) -> None:
         "range that the file encoding and \\ansi decode identically; \\u values must lie in [-32768,32767] and be the "
         "signed-16 image (BMP) or the UTF-16 surrogate pair (beyond BMP). R10.2 escape template \\ucN\\u<int> + N literal "
         "fallback chars. R10.3 taint over the document shapes of all three encode paths: no raw user text atom. "
-        "R10.4 explicit encodings at the four writers. R10.5 the escaping step is not control-dependent on the conversion flag.")
+        "R10.4 explicit encodings at the four writers. R10.5 symbolic run of the text pipeline for convert=True and convert=False: every value the escaper entry point returns is escaper output (or an empty constant).")
     ctx.assume("RTF readers decode bytes < 0x80 identically under \\ansi; \\uN with \\uc1 skips one fallback character")
+    ctx.assume("interval analysis: the character is symbolic (all Unicode scalar values, partitioned by the loop's own comparisons); helpers "
+               "called from the loop are analysed in place; a condition that cannot be related to the code point is followed on both sides "
+               "for the whole set and findings about code point sets are then reported as gaps; unsupported statements are gaps")
     ctx.undecided("behaviour of third-party RTF readers; text that the user supplies as raw RTF fragments (input restriction)")
     encs = write_encodings(ctx)
     pass_ok = ((0, I.MAXCP),)
